@@ -233,6 +233,13 @@ func getDebianCharWeight(r rune) int {
 
 // compareDebianDigits compares digit strings numerically
 func compareDebianDigits(a, b string) int {
+	// An empty digit run counts as zero (dpkg: "1a" equals "1a0")
+	if a == "" {
+		a = "0"
+	}
+	if b == "" {
+		b = "0"
+	}
 	// Empty string is treated as 0
 	if a == "" && b == "" {
 		return 0
